@@ -487,7 +487,8 @@ fn par_graph_cases<W: Write>(cx: &mut Ctx<W>, rng: &mut Rng, g0: &Graph, g1: &Gr
 fn run_ranges<W: Write>(cx: &mut Ctx<W>, rng: &mut Rng, count: usize, maxn: usize) {
     for _ in 0..count {
         let n = if rng.chance(1, 8) { rng.below(3) } else { rng.range(1, maxn) };
-        let g = if rng.chance(1, 2) { gen_hub_graph(rng, n) } else { gen_graph(rng, n) };
+        // one graph in ten has nodes but no arcs at all (average degree exactly zero)
+        let g = if rng.chance(1, 10) { vec![Vec::new(); n] } else if rng.chance(1, 2) { gen_hub_graph(rng, n) } else { gen_graph(rng, n) };
         let vg = vec_graph(&g);
         let degs: Vec<usize> = g.iter().map(|l| l.len()).collect();
         let arcs = num_arcs(&g);
